@@ -261,6 +261,47 @@ def machine_rule(rep, prog, cfg):
                         problems.append("an error outside a list carries no frames (the partial frame is dropped), frames derive from %s" % sorted(ff))
                 elif not (m == "finish" and v == "Initial" and empty_call):
                     problems.append("no response constructed")
+            # the effect must happen on EVERY path of the transition, not merely on one: a return reachable (for this state)
+            # without passing the construct means some input is consumed without leaving its trace in the builder
+            def escapes(required):
+                seen, st = set(), [0]
+                while st:
+                    x = st.pop()
+                    if x in seen or x in required or x not in vis:
+                        continue
+                    seen.add(x)
+                    if b.blocks[x]["t"]["k"] == "return":
+                        return True
+                    if x == sw["bb"]:
+                        st.append(sw["arms"].get(v, sw["otherwise"]))
+                    else:
+                        st.extend(g_succs[x])
+                return False
+            g_succs = b.succs()
+            if not problems:
+                if m in ("field", "binary") and v == "Initial":
+                    req = {bb for bb in vis for s2 in b.blocks[bb]["s"] if s2["k"] == "assign" and s2["rv"]["k"] == "agg"
+                           and s2["rv"].get("variant") == "InProgress" and s2["place"]["l"] not in placeholders}
+                    if escapes(req):
+                        problems.append("can return without entering InProgress (a component would be consumed while the builder still looks idle)")
+                elif m == "field":
+                    req = {bb for bb, t, ns in cs if any(n.endswith("FieldsContainer::push_field") for n in ns)}
+                    if escapes(req):
+                        problems.append("can return without appending the field")
+                elif m == "binary":
+                    req = {bb for bb in vis for s2 in b.blocks[bb]["s"] if s2["k"] == "assign" and s2["place"]["p"] and last_named_field(s2["place"]) == "binary"}
+                    if escapes(req):
+                        problems.append("can return without storing the payload")
+                elif m == "finish_frame":
+                    req = {bb for bb in vis for s2 in b.blocks[bb]["s"] if s2["k"] == "assign" and s2["rv"]["k"] == "agg" and s2["rv"].get("variant") == "ListInProgress"}
+                    if escapes(req):
+                        problems.append("can return without starting the next frame")
+                else:
+                    req = {bb for bb in vis for s2 in b.blocks[bb]["s"] if s2["k"] == "assign" and s2["rv"]["k"] == "agg" and s2["rv"]["agg"] == "adt"
+                           and norm(s2["rv"]["adt_name"]).endswith("response::Response")}
+                    req |= {bb for bb, t, ns in cs if any(n.endswith("response::Response::empty") for n in ns)}
+                    if escapes(req):
+                        problems.append("can return without constructing a response")
             rep.check(not problems, rule, inst, where,
                       "builder transition %s in state %s: %s" % (m, v, "; ".join(problems)))
 
